@@ -66,20 +66,19 @@ func appendIfNotIn(ids []*Identity, chk *Identity) []*Identity {
 }
 
 // addChildren adds identity r and all of its children to ids
-// deterministically.
-func addChildren(r *Identity, ids []*Identity) []*Identity {
-	for _, id := range ids {
-		if id == r {
-			// r and its children have been added already. Stopping
-			// here also ends the recursion on a derivation cycle.
-			return ids
-		}
+// deterministically. added records what ids holds already.
+func addChildren(r *Identity, ids []*Identity, added map[*Identity]bool) []*Identity {
+	if added[r] {
+		// r and its children have been added already. Stopping here
+		// also ends the recursion on a derivation cycle.
+		return ids
 	}
+	added[r] = true
 	ids = append(ids, r)
 
 	// Iterate through the values of r.
 	for _, ch := range r.Values {
-		ids = addChildren(ch, ids)
+		ids = addChildren(ch, ids, added)
 	}
 	return ids
 }
@@ -237,8 +236,9 @@ func (ms *Modules) resolveIdentities() []error {
 	// the children of each identity.
 	for _, i := range ms.typeDict.identities.dict {
 		newValues := []*Identity{}
+		added := map[*Identity]bool{}
 		for _, j := range i.Identity.Values {
-			newValues = addChildren(j, newValues)
+			newValues = addChildren(j, newValues, added)
 		}
 		for _, v := range newValues {
 			if v == i.Identity {
